@@ -146,7 +146,7 @@ fn check_long<T: Scalar>(spec: &Spec, seqs: &[Vec<f64>], len: usize, st: &mut St
 
 pub fn run(ctx: &Ctx) -> CheckOutput {
     let quick = ctx.tier == Tier::Quick;
-    let depth = if quick { 7 } else { 8 };
+    let depth = if quick { 7 } else { 9 };
     let mut jobs: Vec<Job> = vec![];
     // every view, all variants, N = 1..8 exhaustively by TREE
     for n in 1..=8usize {
@@ -197,7 +197,7 @@ pub fn run(ctx: &Ctx) -> CheckOutput {
                         let mut st = Stats::default();
                         let sink = Sink::new();
                         let seqs = crate::explore::cycles(&alphabet(&spec)[..3], 3);
-                        check_long::<f64>(&spec, &seqs, 5000, &mut st, &sink);
+                        check_long::<f64>(&spec, &seqs, 20000, &mut st, &sink);
                         JobOut { stats: st, viols: sink.take(), samples: vec![] }
                     }));
                 }
@@ -205,7 +205,7 @@ pub fn run(ctx: &Ctx) -> CheckOutput {
         }
     }
     // every two-level chain, N in {1,2,3}^2 (actual small windows, not clamped)
-    let cdepth = if quick { 5 } else { 6 };
+    let cdepth = if quick { 5 } else { 7 };
     for o in unary_catalogue() {
         let ons: Vec<usize> = if o.has_n { vec![1, 2, 3] } else { vec![1] };
         for on in ons {
